@@ -613,19 +613,29 @@ def c18_scenario(rep, rng, scratch, idx):
     log = os.path.join(d, "child.log")
     env = {"VCHILD_LOG": log, "VCHILD_TAG": "c", "VCHILD_OPTS": "--dump --exit-after 5 --no-overlap-probe"}
     flags = ["-1", "--wrap-process=" + wrap]
+    prog = VCHILD
+    if kind in ("exec", "shell-none") and rng.random() < 0.4:
+        # the program itself is a hostile word: a path with spaces / quotes, often as the only element of the command
+        pdir = os.path.join(d, rng.choice(["my tools", "a  b", "it's", "x;y", "tab\there"]))
+        os.makedirs(pdir, exist_ok=True)
+        prog = os.path.join(pdir, rng.choice(["v child", "run me --now", "helper"]))
+        if not os.path.lexists(prog):
+            os.symlink(VCHILD, prog)
+        if rng.random() < 0.6:
+            args = []
     if kind == "exec":
-        override = ["-n", "--", VCHILD] + args
-        expected = [VCHILD.encode()] + [a.encode() for a in args]
+        override = ["-n", "--", prog] + args
+        expected = [prog.encode()] + [a.encode() for a in args]
     elif kind == "shell-none":
-        override = ["--shell=none", "--", VCHILD] + args
-        expected = [VCHILD.encode()] + [a.encode() for a in args]
+        override = ["--shell=none", "--", prog] + args
+        expected = [prog.encode()] + [a.encode() for a in args]
     else:
         opts = [rng.choice(["-x", "opt1", "--flag=1", "o"]) for _ in range(rng.randint(0, 2))]
         # the helper *is* the shell: it must be called as <shell> <options...> -c "<words joined by single spaces>"
         words = [w for w in args if w != ""] or ["true"]
         override = ["--shell=" + " ".join([VCHILD] + opts), "--"] + words
         expected = [VCHILD.encode()] + [o.encode() for o in opts] + [b"-c", " ".join(words).encode()]
-    desc = {"kind": kind, "wrap": wrap, "args": args}
+    desc = {"kind": kind, "wrap": wrap, "args": args, "prog": os.path.relpath(prog, d) if prog != VCHILD else "helper"}
     wx = Wx(scratch, name, flags, [], extra_env=env, cmd_override=override)
     wx.log = log
     try:
